@@ -224,9 +224,66 @@ def generate_labels_sys(rng, idx, tier):
     return {'spec': spec, 'ops': ops, 'lattice_point': point}
 
 
+_REINDEX_POINTS = None
+REINDEX_SYS_TYPES = ['range', 'list_int', 'list_str', 'np_int', 'pd_index_int', 'pd_period_y']
+
+
+def reindex_points():
+    """Every (old span type, old length 1-3, ordered selection of 1-3 distinct labels from the old span plus one label on
+    either side, spelling of the new span, fill variant, family): the exhaustive part of C12 at this bound."""
+    global _REINDEX_POINTS
+    if _REINDEX_POINTS is None:
+        import itertools
+
+        pts = []
+        for ty in REINDEX_SYS_TYPES:
+            for n in (1, 2, 3):
+                cands = list(range(2, n + 4))  # universe positions: the old span is 3 .. n + 2
+                for k in (1, 2, 3):
+                    for sel in itertools.permutations(cands, k):
+                        for how in ('same', 'list', 'np', 'pd'):
+                            for fill in ('default', 'fill_value', 'per-variable'):
+                                for fam in ('vc', 'scripted'):
+                                    pts.append((ty, n, list(sel), how, fill, fam))
+        _REINDEX_POINTS = pts
+    return _REINDEX_POINTS
+
+
+def generate_reindex_sys(rng, idx, tier):
+    pts = reindex_points()
+    point = idx % len(pts) if tier == 'thorough' else (idx * 7919) % len(pts)
+    ty, n, sel, how, fill, fam = pts[point]
+    spec = {'family': fam, 'span': {'type': ty, 'n': n, 'origin': [0, 4][point % 2], 'step': 2}, 'strict': False}
+    ops = []
+    if fam == 'vc':
+        for i, dt in enumerate(('float', 'int', 'bool', 'str')):
+            ops.append({'op': 'add_variable', 'obj': 0, 'name': f'V{i}', 'value': {'k': 'seq', 'c': 'list', 'len': 'n', 'e': dt, 'base': 10 * (i + 1)}, 'dtype': dt})
+        names = ['V0', 'V1', 'V2', 'V3']
+    else:
+        ms = {'kind': 'scripted', 'endo': ['Y0'], 'exo': ['X0'], 'check': ['Y0'], 'lags': 0, 'leads': 0, 'span': spec['span'], 'init': {'Y0': [float(i + 1) for i in range(n)], 'X0': [float(10 + i) for i in range(n)]}}
+        spec['model'] = ms
+        names = ['Y0', 'X0']
+        # bookkeeping that differs from the defaults, so that carried-over and filled periods can be told apart
+        ops.append({'op': 'setitem', 'obj': 0, 'name': 'status', 'value': {'k': 'scalar', 'e': 'str', 'base': 5}})
+        ops.append({'op': 'setitem', 'obj': 0, 'name': 'iterations', 'value': {'k': 'seq', 'c': 'list', 'len': 'n', 'e': 'int', 'base': 3}})
+    fv, fills = None, {}
+    if fill == 'fill_value':
+        fv = [7, 2.5, True, 0][point % 4]
+    elif fill == 'per-variable':
+        fills = {names[point % len(names)]: [1, 0, 3.5, True][point % 4]}
+        if fam == 'scripted' and point % 3 == 0:
+            fills['iterations'] = 5
+        if fam == 'scripted' and point % 3 == 1:
+            fills['status'] = 'F'
+    ops.append({'op': 'reindex', 'obj': 0, 'idx': sel, 'as': how, 'fill_value': fv, 'fills': fills, 'strict': None, 'mode': 'idx', 'k': 0})
+    return {'spec': spec, 'ops': ops, 'lattice_point': point}
+
+
 def generate(rng, idx, tier, variant):
     if variant == 'pairs':
         return generate_pairs(rng, idx, tier)
+    if variant == 'reindex_sys':
+        return generate_reindex_sys(rng, idx, tier)
     if variant == 'labels_sys':
         return generate_labels_sys(rng, idx, tier)
     fam = gen_family(rng, variant)
